@@ -323,6 +323,7 @@ def _tree_cases(rng, tier):
     # --- as_binary, copy
     out.append({"kind": "binary", "tree": tree, "ops": [f"binary {tok}"]})
     out.append({"kind": "copy", "tree": tree, "ops": [f"copy {tok}"]})
+    out.append({"kind": "accessors", "tree": tree})
     return out
 
 
@@ -874,6 +875,15 @@ def _oracle_newick(case):
     from biotite.sequence import phylo
 
     labels, inc = case["labels"], bool(case["inc"])
+    labels_before = None if labels is None else list(labels)
+    r = _oracle_newick_inner(case, phylo, labels, inc)
+    if labels != labels_before:
+        return [("C19/newick/labels-list-modified", f"labels {labels_before!r} became {labels!r}")]
+    return r
+
+
+def _oracle_newick_inner(case, phylo, labels, inc):
+    import random as _r
     tree = phylo.Tree(_build(case["tree"]))
     n = len(tree)
     used = labels[:n] if labels is not None else []
@@ -967,6 +977,73 @@ def _oracle_copy(case):
     return []
 
 
+def _snapshot(tree):
+    n = len(tree)
+    return (n, [tree.leaves[i].index if tree.leaves[i] is not None else None for i in range(n)],
+            [[_gd(tree, i, j) for j in range(n)] for i in range(n)], tree.to_newick(), _dump(tree.root),
+            tree.root.get_leaf_count(), [int(x) for x in tree.root.get_indices()])
+
+
+def _scribble(x):
+    """Damage a returned container in every way its type allows."""
+    import numpy as np
+    if isinstance(x, list):
+        x.reverse()
+        if x:
+            x.pop()
+        x.append(None)
+        x.clear()
+        x.extend([None, None, None])
+    elif isinstance(x, np.ndarray):
+        try:
+            x[...] = -7
+            x.sort()
+        except Exception:  # noqa: BLE001  (read-only array is fine)
+            pass
+    elif isinstance(x, dict):
+        x.clear()
+    elif isinstance(x, set):
+        x.clear()
+
+
+def _oracle_accessors(case):
+    """Nothing a Tree/TreeNode hands out gives write access to its internal state."""
+    from biotite.sequence import phylo
+    tree = phylo.Tree(_build(case["tree"]))
+    ref = phylo.Tree(_build(case["tree"]))
+    snap = _snapshot(tree)
+    nodes = [x for x, _ in _depths(tree.root).values()]
+    accessors = [("Tree.leaves", lambda: tree.leaves), ("Tree.root", lambda: tree.root),
+                 ("TreeNode.get_leaves", lambda: tree.root.get_leaves()),
+                 ("TreeNode.get_indices", lambda: tree.root.get_indices()),
+                 ("TreeNode.get_leaf_count", lambda: tree.root.get_leaf_count()),
+                 ("Tree.as_graph", lambda: tree.as_graph())]
+    for k, node in enumerate(nodes[:6]):
+        accessors.append(("TreeNode.children", lambda node=node: node.children))
+        accessors.append(("TreeNode.get_leaves", lambda node=node: node.get_leaves()))
+        accessors.append(("TreeNode.get_indices", lambda node=node: node.get_indices()))
+    for name, get in accessors:
+        try:
+            got = get()
+        except Exception as e:  # noqa: BLE001
+            return [("C19/accessor/raises", f"{name} raised {type(e).__name__}: {e}")]
+        try:
+            _scribble(got)
+        except Exception:  # noqa: BLE001
+            pass
+        try:
+            now = _snapshot(tree)
+            same = now == snap and tree == ref and len(tree.leaves) == snap[0]
+        except Exception as e:  # noqa: BLE001
+            return [(f"C19/accessor/{name}-exposes-internal-state",
+                     f"after modifying the object returned by {name} the tree is broken: {type(e).__name__}: {e}; tree {snap[3]}")]
+        if not same:
+            return [(f"C19/accessor/{name}-exposes-internal-state",
+                     f"modifying the object returned by {name} changed the tree {snap[3]}: "
+                     f"len {snap[0]} -> {now[0]}, indices {snap[1]} -> {now[1]}, newick -> {now[3]}")]
+    return []
+
+
 def _oracle_binnode(case):
     from biotite.sequence import phylo
     node = _build(case["tree"])
@@ -1003,6 +1080,8 @@ def _oracle(case):
         return _oracle_copy(case)
     if k == "binnode":
         return _oracle_binnode(case)
+    if k == "accessors":
+        return _oracle_accessors(case)
     return []
 
 
